@@ -122,7 +122,9 @@ pub struct ServerStream {
     reference: RefServer,
     tokens: Option<Tokens>,
     /// (ip, token) pairs `tok gen` has issued in this case
-    issued_direct: std::collections::HashSet<(std::net::Ipv4Addr, Vec<u8>)>,
+    issued_direct: HashMap<(std::net::Ipv4Addr, Vec<u8>), u64>,
+    /// number of `tok rotate` ops in this case
+    direct_epoch: u64,
 }
 
 impl ServerStream {
@@ -138,6 +140,7 @@ impl ServerStream {
             reference: RefServer { epoch: 0, last_rot: 0, issued: HashMap::new(), imm: RefLru::new(1), mutable: RefLru::new(1), peers: RefLru::new(1), signed: RefLru::new(1), max_peers: 1 },
             tokens: None,
             issued_direct: Default::default(),
+            direct_epoch: 0,
         }
     }
 
@@ -461,6 +464,7 @@ impl Stream for ServerStream {
                 dht::verif::seed_thread(args[1].parse().expect("seed"));
                 self.tokens = Some(Tokens::new());
                 self.issued_direct.clear();
+                self.direct_epoch = 0;
                 self.t0 = dht::verif::now_ns();
             }
             _ => {}
@@ -502,6 +506,7 @@ impl Stream for ServerStream {
             ["tok", "rotate"] => {
                 if let Some(t) = self.tokens.as_mut() {
                     t.rotate();
+                    self.direct_epoch += 1;
                 }
                 "ok".into()
             }
@@ -509,7 +514,8 @@ impl Stream for ServerStream {
                 Some(t) => {
                     let a = parse_addr(addr);
                     let tok = t.generate_token(a);
-                    self.issued_direct.insert((*a.ip(), tok.to_vec()));
+                    // (the latest issue counts: the same token may be issued again in a later epoch)
+                    self.issued_direct.insert((*a.ip(), tok.to_vec()), self.direct_epoch);
                     hex(&tok)
                 }
                 None => "bad-op".into(),
@@ -519,8 +525,12 @@ impl Stream for ServerStream {
                     let a = parse_addr(addr);
                     let tok = unhex(token);
                     let ok = t.validate(a, &tok);
-                    if ok && !self.issued_direct.contains(&(*a.ip(), tok.clone())) {
-                        out.violation("C15", "never-issued-token-accepted", format!("token {} was never issued to {} but validates for it", hex(&tok), a.ip()));
+                    match self.issued_direct.get(&(*a.ip(), tok.clone())) {
+                        None if ok => out.violation("C15", "never-issued-token-accepted", format!("token {} was never issued to {} but validates for it", hex(&tok), a.ip())),
+                        // a token stays valid while its secret is the current or the previous one
+                        Some(e) if !ok && self.direct_epoch - *e <= 1 => out.violation("C15", "fresh-token-rejected", format!("token {} was issued to {} {} rotation(s) ago and is rejected", hex(&tok), a.ip(), self.direct_epoch - *e)),
+                        Some(e) if ok && self.direct_epoch - *e >= 2 => out.violation("C15", "expired-token-accepted", format!("token {} was issued to {} {} rotations ago and still validates", hex(&tok), a.ip(), self.direct_epoch - *e)),
+                        _ => {}
                     }
                     ok.to_string()
                 }
@@ -746,19 +756,30 @@ pub fn run(out: &mut Out, seed: u64, thorough: bool, replay: Option<&str>) {
             known: Default::default(),
         };
         // a few routing-table entries so that replies carry nodes
+        let mut table_nodes: Vec<(String, SocketAddrV4)> = vec![];
         for _ in 0..g.rng.below(30) {
             let which = if g.rng.chance(1, 3) { "signed" } else { "main" };
             let idb = g.rng.id20();
             let a = SocketAddrV4::new(Ipv4Addr::from(0x30000000 | g.rng.next() as u32 & 0x0fffffff), 1 + g.rng.below(60000) as u16);
             out.run(&mut s, format!("rtadd {which} {} {}", hex(&idb), addr_s(&a)));
+            table_nodes.push((hex(&idb), a));
         }
         let salts: Vec<Option<Vec<u8>>> = vec![None, Some(b"salt".to_vec()), Some(vec![]), Some(vec![7; 64]), Some(vec![7; 65])];
         let info_hashes: Vec<[u8; 20]> = (0..3).map(|_| g.rng.id20()).collect();
         let steps = if c % 6 == 3 { 260 } else { 90 + g.rng.below(120) };
         let mut now_rel: u64 = 0;
         for _ in 0..steps {
-            let from = *g.rng.pick(&g.ips.clone());
-            let rid = hex(&g.rng.id20());
+            let mut from = *g.rng.pick(&g.ips.clone());
+            let mut rid = hex(&g.rng.id20());
+            // one request in five comes from a node that is in the routing tables (its id, and half of
+            // the time its address): what a server answers does not depend on who asks
+            if !table_nodes.is_empty() && g.rng.chance(1, 5) {
+                let (i, a) = g.rng.pick(&table_nodes).clone();
+                rid = i;
+                if g.rng.chance(1, 2) {
+                    from = a;
+                }
+            }
             let fa = addr_s(&from);
             let line = match g.rng.below(100) {
                 0..=4 => format!("req {fa} ping {rid}"),
